@@ -6,7 +6,7 @@
 (* MaxLen characters (so: relative/absolute, 1..4 components, repeated and trailing          *)
 (* separators) and ALL existence patterns of the path's own prefixes (k leading components   *)
 (* exist as directories, the next one is absent | a file | a link to a directory | a         *)
-(* dangling link).                                                                           *)
+(* dangling link | a unix socket).                                                          *)
 (*                                                                                           *)
 (* Algo = "pinned": the algorithm of the pinned snapshot (backward scan; `EEXIST => return   *)
 (*   Ok`; loop exhaustion => Ok; paths longer than the 512-byte stack buffer go through a    *)
@@ -39,10 +39,11 @@ Chain(comps, k, blocker) ==          \* k leading components are directories, th
          [] blocker = "file"     -> Put(dirs, next, File(Small(<<1>>)))
          [] blocker = "linkdir"  -> Put(Put(dirs, next, Link([j \in 1..k |-> ".."] \o <<"zd">>)), <<"zd">>, Dir)
          [] blocker = "dangling" -> Put(dirs, next, Link(<<"zz">>))
+         [] blocker = "sock"     -> Put(dirs, next, Sock)
 Init ==
     /\ raw \in Strings
     /\ \A j \in 1..Len(Segs(raw)) : Segs(raw)[j] # ".."          \* never above the private root
-    /\ \E k \in 0..Len(Comps(Segs(raw))), blocker \in {"none", "file", "linkdir", "dangling"} :
+    /\ \E k \in 0..Len(Comps(Segs(raw))), blocker \in {"none", "file", "linkdir", "dangling", "sock"} :
           /\ blocker # "none" => k < Len(Comps(Segs(raw)))
           /\ tree0 = Chain(Comps(Segs(raw)), k, blocker)
     /\ tree = tree0 /\ pc = "start" /\ it = 1 /\ ind = 0 /\ i = 0 /\ res = "none"
